@@ -206,3 +206,84 @@ class JoinBarrierHistories(Unit):
             ctx.canary()
         ctx.eng.explore(thunk)
         ctx.bounded.append({"unit": self.name, "bound": "9 histories"})
+
+
+LATE_DEF = """
+version: 1.0
+tasks:
+  a:
+    action: core.noop
+    next:
+      - do: w, p
+  w:
+    %s
+    action: core.echo message=x
+  p:
+    action: core.noop
+"""
+ITEMS = "with:\n      items: <%% list(1, 2, 3) %%>\n      concurrency: %d"
+
+
+def late_start_histories():
+    """a task that was offered before a pause / cancel request reports its start only afterwards:
+    (name, observed, expected, detail)"""
+    out = []
+    for request, rest in ((st.PAUSING, st.PAUSED), (st.CANCELING, st.CANCELED)):
+        for shape in ("plain", "items/1", "items/3"):
+            for late in (False, True):
+                body = "" if shape == "plain" else ITEMS % int(shape.split("/")[1])
+                r = _Run(LATE_DEF % body)
+                c = r.c
+                r.start(); r.done("a")
+                offers = {t["id"]: t for t in c.get_next_tasks()}
+                n_items = [x.get("item_id") for x in offers["w"]["actions"]]
+                c.update_task_state("p", 0, events.ActionExecutionEvent(st.RUNNING))
+
+                def start_w():
+                    if shape == "plain":
+                        c.update_task_state("w", 0, events.ActionExecutionEvent(st.RUNNING))
+                    else:
+                        for i in n_items:
+                            c.update_task_state("w", 0, events.TaskItemActionExecutionEvent(i, st.RUNNING))
+                if not late:
+                    start_w()
+                c.request_workflow_status(request)
+                if late:
+                    start_w()
+                during = c.get_workflow_status()
+                r.done("p")
+                mid = c.get_workflow_status()
+                if shape == "plain":
+                    r.done("w")
+                else:
+                    for i in n_items:
+                        c.update_task_state("w", 0, events.TaskItemActionExecutionEvent(i, st.SUCCEEDED, result="x"))
+                end = c.get_workflow_status()
+                more = [t["id"] for t in c.get_next_tasks()]
+                out.append(("late-start/%s/%s/%s" % (request, shape, "late" if late else "early"), (during, mid, end, more),
+                            (request, request, rest, []),
+                            "%s requested %s the offered task w (%s) reported its start; then p and w's in-flight actions report succeeded" % (
+                                request, "before" if late else "after", shape)))
+    return out
+
+
+class LateStartHistories(Unit):
+    bounded = True
+    name = "H.late_start_histories"
+    functions = ["orquesta.conducting.WorkflowConductor.update_task_state", "orquesta.conducting.WorkflowConductor.request_workflow_status",
+                 "orquesta.machines.TaskStateMachine.process_event"]
+    obligations = {
+        "C10.hist.request_reaches_late_starter": {"props": ["C10", "C09", "C03"], "text":
+            "a task (plain or with-items, with more items than its concurrency or not) that was offered before a pause / cancel request and reports its start only afterwards does not keep the workflow pausing / canceling for ever: the workflow reports pausing / canceling while an action is in flight and paused / canceled as soon as the last one has reported, and offers nothing more - exactly as when the start had been reported before the request"},
+    }
+    assumptions = ["BOUNDED: twelve concrete histories on three definitions (native run through the public API)"]
+    trusted = ["CPython", "yaql"]
+
+    def run_split(self, ctx, split):
+        def thunk(e):
+            for name, got, want, detail in late_start_histories():
+                ctx.oblige("C10.hist.request_reaches_late_starter", got == want, {"history": name},
+                           {"history": name, "observed": got, "expected": want, "detail": detail})
+            ctx.canary()
+        ctx.eng.explore(thunk)
+        ctx.bounded.append({"unit": self.name, "bound": "12 histories"})
